@@ -110,6 +110,17 @@ def observed_order(case, impl):
     return [steps.get(k, []) for k in range(max(steps) + 1)]
 
 
+def flip_bound(case):
+    """largest number of uniform draws on any path of the default-rule sampler program"""
+    import math
+    arcs = len(L.arcs_of(case['gc']))
+    if case['kind'] in ('PERC', 'PSIR'): return arcs // 2
+    if case['kind'] == 'SIS' or case.get('rec') is not None:
+        if case['tmax'] is None: return 10 ** 9
+        return arcs * max(1, math.ceil(case['tmax'] - case['tmin']))
+    return arcs
+
+
 def exact_line(case, impl):
     draws = []
     for c in impl['calls']:
@@ -135,6 +146,7 @@ def compare_exact(case, raw, impl):
     """the sampler program with the code's default rule (Flip p per test, Unif per choice), run on
     the implementation's own answers in the implementation's own iteration order, must make the
     same calls with the same arguments and return the same outputs in the same order"""
+    if not raw or not raw.strip(): return 'exact replay: no output from the model driver'
     m = R.parse_model_line(raw)
     if m['status'] != 'OK': return 'exact replay: model %s %s' % (m['status'], m.get('err', m.get('raw')))
     tr = trace_with_p(raw); calls = impl['calls']
@@ -250,7 +262,7 @@ def run(run, tier):
     rc = []
     for kind in L.KINDS:
         for _ in range(40 if quick else 400):
-            c = L.gen_case(rng, kind, nmax=4); c['i0'] = None; c['i0_form'] = 'list'
+            c = L.gen_case(rng, kind, nmax=4); c['i0'] = None; c['i0_form'] = 'list'; c['r0'] = None
             c['rho'] = rng.choice([None, F(1, 4), F(1, 2), F(3, 4), F(1), F(3, 8), F(5, 4)])
             rc.append(c)
     for kind in L.KINDS:
@@ -287,6 +299,9 @@ def run(run, tier):
             draws = [F(rng.randrange(len(c['gc'].order)))]
         impl = L.run_impl(EoN, sim, c, draws)
         if impl['status'] != 'OK': continue
+        # the sampler tree of the default rule has a strict Flip node per test: the extracted
+        # (call-by-value) program is exponential in the number of tests, so only short runs are replayed
+        if flip_bound(c) > 10: continue
         todo.append((c, impl, draws))
     outs = C.run_model([exact_line(c, impl) for c, impl, _ in todo], L.COMP)
     for (c, impl, draws), raw in zip(todo, outs):
